@@ -17,17 +17,32 @@ Quick == Tier = "quick"
 OperandTemplates == {"consts", "names", "locals", "params", "args", "newargs", "array", "object", "closures"}
 SizeTemplates    == {"stmts", "loop", "if_then", "if_else", "switch", "try", "func", "funcloop", "dowhile", "forloop"}
 \* (long operator chains such as 1+1+...+1 nest the AST n deep: beyond the documented parser recursion limit, out of scope)
-Templates == OperandTemplates \cup SizeTemplates
+\* expression payloads with an operand that grows with n, inside every kind of code body the compiler has a
+\* separate code path for (each finishes its bytecode separately; callbacks and getters run in the second decoder loop)
+Payloads == {"consts", "array", "object", "args", "newargs"}
+Wraps == {"program", "fdecl", "fexpr", "arrow_block", "arrow_expr", "getter", "setter", "callback", "nested", "arrow_in_fn", "fn_in_arrow", "ctor", "sortcmp"}
+WrapTemplates == {"w_" \o p \o "_" \o w : p \in Payloads, w \in Wraps}
+\* jumps that are patched with an explicit target (continue targets, switch dispatch): only they cross the 64 KB boundary
+ExplicitTemplates == {"dowhile_continue", "for_continue", "switch_nobreak", "switch_default_first", "while_continue_labelled"}
+Templates == OperandTemplates \cup SizeTemplates \cup WrapTemplates \cup ExplicitTemplates
 
 OperandNs == {1, 2, 127, 128, 200} \cup (250..260) \cup (IF Quick THEN {300, 1000} ELSE {300, 511, 512, 513, 1000, 5000, 65537})
 SizeNs == {1, 2, 50} \cup (IF Quick THEN {1000, 6000, 8192, 11000}
                            ELSE {1000, 3000, 5000, 5460, 5461, 5462, 6000, 6553, 6554, 7000, 7281, 7282, 8000, 8190, 8191, 8192, 8193, 9000, 9362, 9363, 10000, 10922, 10923, 11000, 13107, 13108, 16384, 20000, 33000, 100000})
-Ns(t) == IF t \in OperandTemplates THEN OperandNs ELSE SizeNs
+WrapNs == {1, 200, 255, 256, 257} \cup (IF Quick THEN {} ELSE {254, 258, 300, 600, 1000})
+Ns(t) == IF t \in OperandTemplates THEN OperandNs ELSE IF t \in WrapTemplates THEN WrapNs ELSE SizeNs
+PayloadOf(t) == CHOOSE p \in Payloads : \E w \in Wraps : t = "w_" \o p \o "_" \o w
 
 \* closed form of the template's result (small integers; see checks/c14_driver.py for the program text)
 M7(x) == x % 7
 Closed(t, n) ==
-  CASE t = "consts"  -> VStr(U("c") \o IntText(n - 1))             \* n distinct string constants, last one wins
+  CASE t \in WrapTemplates -> (IF PayloadOf(t) = "consts" THEN VStr(U("c") \o IntText(n - 1)) ELSE VInt(n))
+    [] t = "dowhile_continue" -> VInt(n)
+    [] t = "for_continue" -> VInt(n)
+    [] t = "switch_nobreak" -> VInt(n + 107)
+    [] t = "switch_default_first" -> VInt(n + 7)
+    [] t = "while_continue_labelled" -> VInt(2 * n)
+    [] t = "consts"  -> VStr(U("c") \o IntText(n - 1))             \* n distinct string constants, last one wins
     [] t = "names"   -> VInt(M7(n - 1) * 10 + M7(0))               \* g_{n-1} * 10 + g_0, g_i = i mod 7
     [] t = "locals"  -> VInt(M7(n - 1) * 100 + M7(n \div 2) * 10 + M7(0))
     [] t = "params"  -> VInt(M7(n - 1) * 10 + M7(0))
